@@ -336,9 +336,10 @@ def sample_object_to_dict(data, elem, skip=''):
             continue
         if key == 'meta':
             for meta_key, meta_val in elem.__dict__[key].items():
-                data[meta_key] = meta_val
+                data[meta_key] = meta_val.copy() if isinstance(meta_val, dict) else meta_val
             continue
-        data[key] = val
+        # copy nested dicts (e.g. `samples`): numpy_to_python_type converts their items in place
+        data[key] = val.copy() if isinstance(val, dict) else val
 
 
 def numpy_to_python_type(data):
